@@ -33,6 +33,10 @@ fn families() -> Vec<(String, Vec<RSpec>)> {
         let mut a = mk("A", CondK::True, ActK::IncVar(0), nl, 0);
         a.act2 = ActK::IncVar(1);
         v.push((format!("two_always_true{}", if nl { "_no_loop" } else { "" }), vec![a, mk("B", CondK::True, ActK::IncVar(2), false, -1)]));
+        // arithmetic that leaves the comfortable range while the rule keeps firing: doubling a counter 64 times, and a
+        // remainder whose divisor another rule counts down to zero (the call still returns; values are not compared)
+        v.push((format!("doubling_counter{}", if nl { "_no_loop" } else { "" }), vec![mk("Seed", CondK::VarEq(0, 0), ActK::SetVar(0, 1), true, 10), mk("Double", CondK::VarLt(9, 1), ActK::DoubleVar(0), nl, 0)]));
+        v.push((format!("remainder_by_countdown{}", if nl { "_no_loop" } else { "" }), vec![mk("Seed", CondK::VarEq(1, 0), ActK::SetVar(1, 3), true, 10), mk("Down", CondK::VarLt(9, 1), ActK::DecVar(1), nl, 5), mk("Mod", CondK::VarLt(9, 1), ActK::ModBy(2, 1), nl, 0)]));
         // rules without any action: a firing is a firing even if it changes nothing
         v.push((format!("actionless_always_true{}", if nl { "_no_loop" } else { "" }), vec![mk("Quiet", CondK::True, ActK::Silent, nl, 0)]));
         v.push((format!("actionless_and_counter{}", if nl { "_no_loop" } else { "" }), vec![mk("Inc", CondK::VarLt(0, 3), ActK::IncVar(0), nl, 5), mk("Quiet", CondK::VarEq(0, 3), ActK::Silent, nl, 0)]));
@@ -170,7 +174,11 @@ fn run_families(opts: &Opts) -> Report {
 }
 
 /// A call that ends with an error from an action must not change what the next call on the same engine does.
-fn failed_call_cases() -> Vec<(String, Vec<RSpec>, usize, bool, bool)> {
+const ENTRY_PAIRS: [&str; 4] = ["execute/execute", "callback/callback", "callback/execute", "execute/callback"];
+
+/// entry points of the (first, second) call: 0 = execute/execute, 1 = callback/callback, 2 = callback/execute,
+/// 3 = execute/callback
+fn failed_call_cases() -> Vec<(String, Vec<RSpec>, usize, u8, bool)> {
     let mut out = vec![];
     let mk = |name: &str, cond: CondK, act: ActK, sal: i32, ag: Option<&'static str>| {
         let mut r = RSpec::plain(name);
@@ -183,14 +191,17 @@ fn failed_call_cases() -> Vec<(String, Vec<RSpec>, usize, bool, bool)> {
     for (vname, ag, with_b) in [("plain", None, false), ("activation_group", Some("g"), false), ("activation_group_of_two", Some("g"), true), ("plain_with_second_rule", None, true)] {
         for fsal in [5, 15] {
             for mc in [1usize, 2, 3, 5, 8] {
-                for cb in [false, true] {
+                for cb in [0u8, 1, 2, 3] {
                     for grl in [false, true] {
                         let mut rules = vec![mk("A", CondK::VarLt(0, 3), ActK::IncVar(0), 10, ag)];
                         if with_b {
                             rules.push(mk("B", CondK::VarLt(2, 2), ActK::IncVar(2), 8, ag));
                         }
                         rules.push(mk("F", CondK::VarEq(1, 1), ActK::Fail, fsal, None));
-                        out.push((format!("{}_failing_rule_salience_{}", vname, fsal), rules, mc, cb, grl));
+                        out.push((format!("{}_failing_rule_salience_{}", vname, fsal), rules.clone(), mc, cb, grl));
+                        if fsal == 5 && mc <= 2 {
+                            out.push((format!("{}_first_call_ends_at_bound", vname), rules, mc, cb, grl));
+                        }
                     }
                 }
             }
@@ -199,11 +210,14 @@ fn failed_call_cases() -> Vec<(String, Vec<RSpec>, usize, bool, bool)> {
     out
 }
 
-fn run_failed_call_case(name: &str, rules: &[RSpec], mc: usize, cb: bool, grl: bool) -> Result<bool, (String, String)> {
+fn run_failed_call_case(name: &str, rules: &[RSpec], mc: usize, entries: u8, grl: bool) -> Result<bool, (String, String)> {
     let mut eng = c02::build_engine(rules, grl, mc).map_err(|e| ("rule_set_rejected".to_string(), e))?;
     let facts = c02::mk_facts();
-    facts.set("v1", rust_rule_engine::types::Value::Integer(1));
-    let first = if cb { eng.execute_with_callback(&facts, |_n, _f| {}) } else { eng.execute(&facts) };
+    // variants whose name ends in "_bound": the first call does not fail, it ends at max_cycles after a pass that fired
+    let arm = !name.ends_with("_bound");
+    facts.set("v1", rust_rule_engine::types::Value::Integer(arm as i64));
+    let (cb1, cb) = (entries == 1 || entries == 2, entries == 1 || entries == 3);
+    let first = if cb1 { eng.execute_with_callback(&facts, |_n, _f| {}) } else { eng.execute(&facts) };
     let failed = first.is_err();
     // disarm the failing rule; everything else stays as the first call left it
     facts.set("v1", rust_rule_engine::types::Value::Integer(0));
@@ -242,7 +256,7 @@ fn run_failed_calls(_opts: &Opts) -> Report {
     let mut failed_first = 0u64;
     for (i, (name, rules, mc, cb, grl)) in cases.iter().enumerate() {
         rep.count("evaluations", 1);
-        let case = json!({"sub": "call_after_failed_call", "case": i, "variant": name, "rules": rules.iter().map(|r| r.grl().unwrap()).collect::<Vec<_>>(), "max_cycles": mc, "entry_point": if *cb { "execute_with_callback" } else { "execute" }, "via_grl": grl});
+        let case = json!({"sub": "call_after_failed_call", "case": i, "variant": name, "rules": rules.iter().map(|r| r.grl().unwrap()).collect::<Vec<_>>(), "max_cycles": mc, "entry_points_first_second": ENTRY_PAIRS[*cb as usize], "via_grl": grl});
         let r = std::panic::catch_unwind(|| run_failed_call_case(name, rules, *mc, *cb, *grl));
         match r {
             Err(_) => rep.violation(Violation { class: "execute_panicked".into(), detail: crate::explore::take_panic(), tags: vec![], case }),
@@ -258,8 +272,9 @@ fn run_failed_calls(_opts: &Opts) -> Report {
     if failed_first == 0 {
         rep.notes.push("VACUITY: no first call failed".into());
     }
+    rep.count("first_call_ended_at_the_bound", cases.iter().filter(|c| c.0.ends_with("_bound")).count() as u64);
     rep.sample(json!({"rules": cases[0].1.iter().map(|r| r.grl().unwrap()).collect::<Vec<_>>(), "first_call": "v1 = 1: rule F's action fails", "second_call": "v1 = 0"}));
-    rep.bound = format!("{} cases: rule A (plain / in an activation group / with a second rule) and a rule whose action returns an error (before or after A in salience) x max_cycles 1,2,3,5,8 x {{execute, execute_with_callback}} x {{builder, GRL}}: first call fails, second call on the same engine is compared with the pass loop", cases.len());
+    rep.bound = format!("{} cases: rule A (plain / in an activation group / with a second rule) and a rule whose action returns an error (before or after A in salience) x max_cycles 1,2,3,5,8 x all four (first, second) entry-point pairs x {{builder, GRL}}: the first call fails (or, for max_cycles <= 2, ends at the bound after a pass that fired), the second call on the same engine is compared with the pass loop", cases.len());
     rep.wall_s = t0.elapsed().as_secs_f64();
     rep
 }
